@@ -142,3 +142,7 @@ def check(run: Run) -> None:
     from ..report import run_stage
 
     run_stage(run, "c12", only={"C12.R3"})
+
+    # ---------------- R6: .. and that copy shares nothing with the stream's AST where the cleaner changes its shape
+    run.rule("C11.R6", "the copy handed to the executor is the cleaner's own: what replaces a removed wrapper is taken from the copy, not from the stream's AST (C15.R3 re-evaluated)")
+    run_stage(run, "c15", only={"C15.R3"})
